@@ -391,6 +391,107 @@ def rule_r4(chk, p, t):
     r.guard(m.qualname, f1)
 
 
+_FRESH_SELFTEST = """
+_KEPT = {}
+
+def factory(config):
+    key = config.name
+    if key not in _KEPT:
+        _KEPT[key] = Detector(config)
+    return _KEPT[key]
+"""
+
+
+def rule_r5(chk, p, t):
+    from rsa.fresh import Fresh
+
+    r = chk.rule(
+        "C17.R5",
+        "every filter gets a detector of its own",
+        5,
+        "SlidingNis / FadingMemoryNis keep the history the statistic is computed over; 'over any history' means the "
+        "history of the filter that owns the detector.  maneuverDetectionFactory returns, on every path, an object "
+        "created by that very call (freshness provenance, rsa/fresh.py: not read from a module-level or class-level "
+        "container, not memoised), every detector's fromConfig returns a constructor call, and sequentialFilterFactory "
+        "hands the filter the result of its own factory call; the filter constructors store the detector they are given",
+        "the statistic itself (R1-R3)",
+    )
+    fr = Fresh(p)
+    # embedded positive example: a keyed keep-and-return factory must be recognised as shared on every run
+    import types
+
+    tree = ast.parse(_FRESH_SELFTEST)
+    mod = types.SimpleNamespace(tree=tree, name="<selftest>", functions={})
+    fdef = [n for n in tree.body if isinstance(n, ast.FunctionDef)][0]
+    fake = types.SimpleNamespace(node=fdef, module=mod, cls=None, qualname="<selftest>.factory", name="factory")
+    rets = [n for n in ast.walk(fdef) if isinstance(n, ast.Return)]
+    if fr.classify(fake, rets[0].value)[0] != "shared":
+        r.error("selftest", "the embedded keep-and-return factory is not recognised as handing out a shared object")
+        return
+    est = p.module("resonaate.estimation")
+    fac = est.functions.get("maneuverDetectionFactory")
+    sff = est.functions.get("sequentialFilterFactory")
+    if fac is None or sff is None:
+        r.error("factories", "maneuverDetectionFactory / sequentialFilterFactory not found in resonaate.estimation")
+        return
+
+    def verdict(fi, e, cons, what):
+        v, why, node = fr.classify(fi, e)
+        if v == "shared":
+            r.violation(cons, "shared-detector", f"{what}: {why} - two filters built from equal configurations share one detector, so each one's window / faded sum / average dimension mixes in the other's innovations and its decisions and metric are not the documented statistic over its own history", fi.loc(node if node is not None and hasattr(node, 'lineno') else e))
+            return False
+        if v in ("unknown", "param"):
+            r.undecided(cons, f"{what}: cannot show the object is created by this call ({why})", fi.loc(e))
+            return False
+        return True
+
+    def factory():
+        rets = [n for n in walk_no_nested(fac.node) if isinstance(n, ast.Return)]
+        require(rets, "maneuverDetectionFactory returns nothing", fac.node)
+        dec = fr._decorated_cache(fac)
+        if dec:
+            r.violation(fac.qualname, "shared-detector", f"maneuverDetectionFactory is memoised by @{dec}: equal configurations get the detector of the first call", fac.loc())
+            return
+        ok = all([verdict(fac, rt.value, fac.qualname, f"`return {unparse(rt.value)[:60]}`") for rt in rets if rt.value is not None])
+        if ok:
+            r.ok(fac.qualname, f"{len(rets)} returns: None or an object created by the call", fac.loc())
+
+    r.guard(fac.qualname, factory)
+
+    base = p.cls("resonaate.estimation.maneuver_detection.ManeuverDetection")
+    for c in p.subclasses(base):
+        m = c.methods.get("fromConfig")
+        if m is None:
+            continue
+
+        def one(c=c, m=m):
+            rets = [n for n in walk_no_nested(m.node) if isinstance(n, ast.Return) and n.value is not None]
+            require(rets, f"{c.name}.fromConfig returns nothing", m.node)
+            ok = True
+            for rt in rets:
+                v = rt.value
+                if isinstance(v, ast.Call) and isinstance(v.func, ast.Name) and v.func.id in ("cls", c.name) and not fr._decorated_cache(m):
+                    continue
+                ok = verdict(m, v, m.qualname, f"`return {unparse(v)[:60]}`") and ok
+            if ok:
+                r.ok(m.qualname, "returns a new instance", m.loc())
+
+        r.guard(m.qualname, one)
+
+    def user():
+        kw = None
+        for n in walk_no_nested(sff.node):
+            if isinstance(n, ast.Call):
+                for k in n.keywords:
+                    if k.arg == "maneuver_detection":
+                        kw = k.value
+        require(kw is not None, "sequentialFilterFactory passes no maneuver_detection", sff.node)
+        if verdict(sff, kw, sff.qualname, f"`maneuver_detection={unparse(kw)[:50]}`"):
+            r.ok(sff.qualname, "the filter is handed the result of this call's own maneuverDetectionFactory(...)", sff.loc())
+
+    r.guard(sff.qualname, user)
+
+
 def run(chk, p, t):
     chk.explanation = (
         "Static decision of structural necessary conditions of C17: (R1) every detector stores the statistic it "
@@ -401,7 +502,7 @@ def run(chk, p, t):
         "chi-square values, monotonicity in the innovation scale as numbers."
     )
     chk.assumptions += ["scipy.stats.chi2.isf(alpha, dof) is the upper-tail quantile", "collections.deque(maxlen=w) keeps the last w items"]
-    for fn in (rule_r1, rule_r2, rule_r3, rule_r4):
+    for fn in (rule_r1, rule_r2, rule_r3, rule_r4, rule_r5):
         rid = "C17.R" + fn.__name__[-1]
         if not chk.wants(rid):
             continue
